@@ -47,7 +47,7 @@ Lemma stagewise_factor m nodal o A :
    forall n sl zd, run_query m (QHop nodal n sl o zd) = run_gquery A (GHop n sl zd)).
 Proof.
   intros HA. destruct (adjacency_wfb _ _ _ _ HA) as [W S].
-  unfold run_gquery. rewrite W, S. simpl.
+  unfold run_gquery, gq_mat. rewrite W, S. simpl.
   split; [|split; [|split]].
   - unfold laplacian. now rewrite HA.
   - intros tot. unfold edge_gradient, edge_gradient_opt. rewrite HA.
@@ -142,4 +142,21 @@ Proof.
   intros i j Hi Hj. rewrite zentry_b2zmat by (rewrite ?S1, ?S2; unfold square in S; lia).
   unfold reach. rewrite <- n_hop_bool_reach by assumption.
   rewrite b2z_1, b2z_0. split; [tauto|]. destruct (entry (n_hop_bool A n) i j); split; congruence.
+Qed.
+
+(* the dense comparison form determines the COO form: equal dense results
+   give equal `run_gquery` results *)
+Lemma zcoo_dense M M' :
+  znr M = znr M' -> znc M = znc M' -> zdat M = zdat M' -> zcoo M = zcoo M'.
+Proof.
+  destruct M as [r c d], M' as [r' c' d']. simpl. intros -> -> ->. reflexivity.
+Qed.
+
+Lemma dense_determines A A' q q' :
+  run_gquery_dense A q = run_gquery_dense A' q' -> run_gquery A q = run_gquery A' q'.
+Proof.
+  unfold run_gquery_dense, run_gquery.
+  destruct (gq_mat A q) as [M|], (gq_mat A' q') as [M'|]; simpl; try discriminate; auto.
+  unfold dres_of_z, res_of_z. intros E. inversion E as [[E1 E2 E3]].
+  apply Nat2Z.inj in E1, E2. now rewrite E1, E2, (zcoo_dense M M' E1 E2 E3).
 Qed.
